@@ -292,23 +292,26 @@ func argFor(r *hx.Rng, name string, s []byte) int {
 }
 
 // walkerCases: the deterministic short samples (every walker on each) + n generated samples.
-func walkerCases(seed uint64, n int) []tcase {
-	r := hx.NewRng(seed)
+// Generation is done in rounds (see forRounds): the deterministic part belongs to round 0.
+func walkerCases(seed uint64, round, n, total int) []tcase {
+	r := hx.NewRng(seed*1000003 + uint64(round))
 	var cs []tcase
 	add := func(s []byte) {
 		for _, name := range walkerTargets {
 			cs = append(cs, tcase{name, s, argFor(r, name, s)})
 		}
 	}
-	for _, w := range walkerWitnesses {
-		add(hx.UnHex(w))
-	}
-	maxLen, maxTail := 3, 4
-	if n >= 20000 {
-		maxLen, maxTail = 5, 6
-	}
-	for _, s := range shortSamples(maxLen, maxTail) {
-		add(s)
+	if round == 0 {
+		for _, w := range walkerWitnesses {
+			add(hx.UnHex(w))
+		}
+		maxLen, maxTail := 3, 4
+		if total >= 20000 {
+			maxLen, maxTail = 5, 6
+		}
+		for _, s := range shortSamples(maxLen, maxTail) {
+			add(s)
+		}
 	}
 	for i := 0; i < n; i++ {
 		s, offs := genSample(r)
